@@ -127,6 +127,12 @@ ReadValOutcomes(st, a, w) ==
   THEN { Out(ResVal(LET b == SubSeq(st.data, a + 1, a + w) IN IF st.endian = "be" THEN b ELSE Reverse(b)), 0, st) }
   ELSE { ErrOut(st) }
 
+\* the Endian codec itself (Endian::encode_* / decode_*), used by every typed accessor: stateless
+EndianEncodeOutcomes(st, digits) == { Out(ResVal(Layout(st, digits)), 0, st) }
+EndianDecodeOutcomes(st, bytes, w) ==
+  IF Len(bytes) = w THEN { Out(ResVal(IF st.endian = "be" THEN bytes ELSE Reverse(bytes)), 0, st) }
+  ELSE { ErrOut(st) }                                  \* a slice of the wrong length is a conversion error
+
 \* ------------------------------------------------------------------ annotation accessors (never touch data)
 \* In-range cell: the call succeeds with the stated effect.  Outside: the statements do not say whether the
 \* call is refused or performed; both allowed (the raw bytes are unchanged either way).
@@ -238,6 +244,8 @@ Outcomes(st, ev) ==
     [] ev.op = "find_label"      -> FindLabelOutcomes(st, ev.bs)
     [] ev.op = "pointer_destinations" -> PointerDestinationsOutcomes(st)
     [] ev.op = "equal_regions"   -> EqualRegionsOutcomes(st, ev.a, ev.t, ev.n)
+    [] ev.op = "endian_encode"   -> EndianEncodeOutcomes(st, ev.bs)
+    [] ev.op = "endian_decode"   -> EndianDecodeOutcomes(st, ev.bs, ev.n)
     [] ev.op = "s_read_label"    -> { [o EXCEPT !.pos = IF o.res.ok THEN ev.a ELSE AnyPos] : o \in ReadLabelAtOutcomes(st, ev.a, ev.n) }
     \* writer-side allocate: appends when the cursor is at the end, inserts otherwise; the cursor stays
     [] ev.op = "s_allocate"      -> { [o EXCEPT !.pos = IF o.res.ok THEN ev.a ELSE AnyPos] :
